@@ -5,6 +5,7 @@ CS = "src/composer/constraint_system/"
 def types(o):
     o.spec_module("base")
     o.spec_module("field")
+    o.spec_module("modarith")
     o.spec_module("composer_specs")
     w = o.file(CS + "witness.rs")
     w.wrap_item("struct", "Witness")
@@ -40,6 +41,7 @@ def overlay(o):
     f = w.fn("Witness::index")
     f.verus("composer.Witness::index", ret="r", ensures=["r == self.idx()"])
     constraint(o, c)
+    composer(o, o.file("src/composer.rs"))
 
 CONSTRAINT_GHOST = """::vstd::prelude::verus!{
 pub(crate) open spec fn sel_idx(r: Selector) -> int {
@@ -137,3 +139,94 @@ pub assume_specification[ <Constraint as Default>::default ]() -> (r: Constraint
                 ens.append(f"r.q({k}) == 0")
         f.verus("composer.Constraint::" + name, ret="r", requires=["s.wf()"], ensures=ens)
         f.at_body_start("proof { field_obeys(); } broadcast use field_axioms;")
+
+
+UNCH = ["gates(*final(self)) == gates(*old(self))", "wits(*final(self)) == wits(*old(self))", "pis(*final(self)) == pis(*old(self))"]
+OBW = "<W as IntoSpec<BlsScalar>>::obeys_into_spec()"
+
+def composer(o, m):
+    m.append("""::vstd::prelude::verus!{
+/// ASSUMED leaf contract: `composer[w]` reads the witness table; precondition: the witness was allocated here
+impl vstd::std_specs::core::IndexSpecImpl<Witness> for Composer {
+    open spec fn index_req(&self, index: &Witness) -> bool { valid_w(*self, *index) }
+}
+pub assume_specification[ <Composer as core::ops::Index<Witness>>::index ](c: &Composer, w: Witness) -> (r: &<Composer as core::ops::Index<Witness>>::Output)
+    ensures cv(*r) == wits(*c)[w.idx() as int];
+}""", note="assumed contract of <Composer as Index<Witness>>::index")
+    o.assumed.append({"unit": "composer.Composer::index", "fn": "<Composer as Index<Witness>>::index", "file": m.rel,
+                      "requires": ["valid_w(*c, w)"], "ensures": ["cv(*r) == wits(*c)[w.idx()]"]})
+    f = m.fn("Composer::append_witness_internal")
+    f.verus("composer.Composer::append_witness_internal", ret="r", external_body=True,
+            ensures=["wits(*final(self)) == wits(*old(self)).push(cv(witness))", "r.idx() == wits(*old(self)).len()",
+                     "gates(*final(self)) == gates(*old(self))", "pis(*final(self)) == pis(*old(self))"])
+    f = m.fn("Composer::append_custom_gate_internal")
+    f.verus("composer.Composer::append_custom_gate_internal", external_body=True,
+            requires=["constraint.wf()"],
+            ensures=["gates(*final(self)) == gates(*old(self)).push(gate_of(constraint))", "wits(*final(self)) == wits(*old(self))",
+                     "pis(*final(self)) == pis_after(pis(*old(self)), gates(*old(self)).len(), constraint)"])
+    f = m.fn("Composer::constraints")
+    f.verus("composer.Composer::constraints", ret="r", external_body=True, ensures=["r == gates(*self).len()"])
+    # ---- append_witness
+    f = m.fn("Composer::append_witness")
+    f.verus("composer.Composer::append_witness", ret="r", requires=[OBW],
+            ensures=["wits(*final(self)) == wits(*old(self)).push(cv(witness.into_spec()))", "r.idx() == wits(*old(self)).len()",
+                     "gates(*final(self)) == gates(*old(self))", "pis(*final(self)) == pis(*old(self))"])
+    f.cut("""self.runtime().event(RuntimeEvent::WitnessAppended {
+            #[cfg(feature = "debug")]
+            w: witness,
+            #[cfg(feature = "debug")]
+            v,
+        });""", name="cut_event_witness_appended", params="&mut self, witness: Witness", call="self.cut_event_witness_appended(witness);",
+          ensures=UNCH)
+    f = m.fn("Composer::append_custom_gate")
+    f.verus("composer.Composer::append_custom_gate", requires=["constraint.wf()"],
+            ensures=["gates(*final(self)) == gates(*old(self)).push(gate_of(constraint))", "wits(*final(self)) == wits(*old(self))",
+                     "pis(*final(self)) == pis_after(pis(*old(self)), gates(*old(self)).len(), constraint)"])
+    f.cut("""self.runtime().event(RuntimeEvent::ConstraintAppended {
+            #[cfg(feature = "debug")]
+            c: constraint,
+        });""", name="cut_event_constraint_appended", params="&mut self, constraint: Constraint", call="self.cut_event_constraint_appended(constraint);",
+          ensures=UNCH)
+    f = m.fn("Composer::append_gate")
+    f.verus("composer.Composer::append_gate", requires=["constraint.wf()"],
+            ensures=["gates(*final(self)) == gates(*old(self)).push(GateV { q_arith: 1, ..gate_ext(constraint) })",
+                     "wits(*final(self)) == wits(*old(self))",
+                     "pis(*final(self)) == pis_after(pis(*old(self)), gates(*old(self)).len(), constraint)"])
+
+    # ---- append_evaluated_output
+    f = m.fn("Composer::append_evaluated_output")
+    f.verus("composer.Composer::append_evaluated_output", ret="r",
+            requires=["valid_constraint(*old(self), s)"],
+            ensures=[
+                # q_O == 0: no output witness; the row is appended as given
+                "s.q(3) == 0 ==> r.is_none() && wits(*final(self)) == wits(*old(self))",
+                "s.q(3) == 0 ==> gates(*final(self)) == gates(*old(self)).push(GateV { q_arith: 1, ..gate_ext(s) })",
+                # q_O != 0: exactly one fresh witness c with  q_O * c + x == 0 (mod R), wired into the row
+                "s.q(3) != 0 ==> r.is_some() && r.unwrap().idx() == wits(*old(self)).len()",
+                "s.q(3) != 0 ==> wits(*final(self)).len() == wits(*old(self)).len() + 1"
+                " && wits(*final(self)).subrange(0, wits(*old(self)).len() as int) == wits(*old(self))",
+                "s.q(3) != 0 ==> (s.q(3) * wits(*final(self))[wits(*old(self)).len() as int] + eo_x(*old(self), s)) % R() == 0",
+                "s.q(3) != 0 ==> gates(*final(self)) == gates(*old(self)).push(GateV { q_arith: 1, c: wits(*old(self)).len(), ..gate_ext(s) })",
+                "pis(*final(self)) == pis_after(pis(*old(self)), gates(*old(self)).len(), s)",
+            ])
+    f.at_body_start("proof { field_obeys(); } broadcast use field_axioms;")
+    f.after("let x = qm * a * b + ql * a + qr * b + qf * d + qc + pi;", """proof {
+    lemma_eo(s.q(0), s.q(1), s.q(2), s.q(4), s.q(5), s.q(6), cv(a), cv(b), cv(d));
+    assert(cv(x) == eo_x(*self, s));
+}""")
+    f.replace("y.invert().map(|y| x * (-y))",
+              "match y.invert() { Some(y) => { proof { lemma_out_general(s.q(3), cv(y), cv(x)); } Some(x * (-y)) }, None => None }",
+              rule="D9 (Option::map(closure) => its defining match) + proof hint")
+    f.before("let output = c.map(|c| self.append_witness(c));", """proof {
+    lemma_out_one(cv(x));
+    lemma_out_minus_one(cv(x));
+    lemma_md_small(cv(x));
+    assert(s.q(3) != 0 ==> c.is_some() && md(s.q(3) * cv(c.unwrap()) + cv(x)) == 0);
+    assert(s.q(3) == 0 ==> c.is_none());
+}""")
+    f.replace("const ONE: BlsScalar = BlsScalar::one();", "exec const ONE: BlsScalar ensures cv(ONE) == 1 { BlsScalar::one() }",
+              rule="D8 (const => exec const, initialiser verbatim, value verified)")
+    f.cut_scalar_const("MINUS_ONE", -1, "neg1()")
+    f.replace("let output = c.map(|c| self.append_witness(c));",
+              "let output = match c { Some(c) => Some(self.append_witness(c)), None => None };",
+              rule="D9 (Option::map with a &mut-capturing closure => its defining match)")
